@@ -126,13 +126,10 @@ void run_program(const Prog& p, Out& o) {
     run_forked(o, 300.0, [&](Out& co) {
         SharedPlans sp;
         sp.build(p.shared);
-        // sequential reference, one thread program after the other, in the main thread
+        // The shared plan objects are used by the threads FIRST (a plan that initialises something lazily on its first solve
+        // must be safe when that first solve happens concurrently); the single-threaded reference runs afterwards, on a second
+        // set of plan objects built from the same specification.
         std::vector<std::vector<uint64_t>> ref(static_cast<size_t>(T)), got(static_cast<size_t>(T));
-        for (int t = 0; t < T; ++t) {
-            rng(int(mix(p.seed, uint64_t(t)) & 0x7FFFFFFF));
-            const auto& ops = p.threads[size_t(t)];
-            for (size_t i = 0; i + 2 < ops.size(); i += 3) ref[size_t(t)].push_back(exec_op(ops[i], ops[i + 1], ops[i + 2], mix(p.seed, uint64_t(t) * 1000 + i), sp));
-        }
         std::atomic<int> ready{0};
         std::atomic<bool> go{false};
         std::vector<std::thread> th;
@@ -151,6 +148,15 @@ void run_program(const Prog& p, Out& o) {
         while (ready.load() < T) std::this_thread::yield();
         go.store(true);
         for (auto& x : th) x.join();
+        {
+            SharedPlans sp_ref;
+            sp_ref.build(p.shared);
+            for (int t = 0; t < T; ++t) {
+                rng(int(mix(p.seed, uint64_t(t)) & 0x7FFFFFFF));
+                const auto& ops = p.threads[size_t(t)];
+                for (size_t i = 0; i + 2 < ops.size(); i += 3) ref[size_t(t)].push_back(exec_op(ops[i], ops[i + 1], ops[i + 2], mix(p.seed, uint64_t(t) * 1000 + i), sp_ref));
+            }
+        }
         for (int t = 0; t < T && !co.failed; ++t) {
             if (!errs[size_t(t)].empty()) { co.fail("mt:exception", fmt("thread %d threw: %s", t, errs[size_t(t)].c_str())); break; }
             for (size_t i = 0; i < ref[size_t(t)].size(); ++i)
